@@ -18,6 +18,8 @@ pub enum Content {
     Zone(i32),
     Garbage,
     Empty,
+    /// the file exists but cannot be read: the read function fails with a typed io::Error (PermissionDenied)
+    Denied,
 }
 
 #[derive(Debug, Clone, Serialize, Deserialize, Hash)]
@@ -29,11 +31,15 @@ pub struct ResCase {
 
 thread_local! {
     static VFS: RefCell<BTreeMap<String, Vec<u8>>> = const { RefCell::new(BTreeMap::new()) };
+    static DENIED: RefCell<std::collections::BTreeSet<String>> = const { RefCell::new(std::collections::BTreeSet::new()) };
     static LOG: RefCell<Vec<String>> = const { RefCell::new(Vec::new()) };
 }
 
 fn vfs_read(path: &str) -> Result<Vec<u8>, Box<dyn std::error::Error + Send + Sync + 'static>> {
     LOG.with(|l| l.borrow_mut().push(path.to_string()));
+    if DENIED.with(|d| d.borrow().contains(path)) {
+        return Err(Box::new(std::io::Error::new(std::io::ErrorKind::PermissionDenied, "permission denied")));
+    }
     VFS.with(|v| v.borrow().get(path).cloned().ok_or_else(|| "not found in the virtual file system".into()))
 }
 
@@ -46,7 +52,7 @@ fn bytes_of(c: &Content) -> Vec<u8> {
     match c {
         Content::Zone(off) => zone_file(*off),
         Content::Garbage => b"this is not a TZif file".to_vec(),
-        Content::Empty => vec![],
+        Content::Empty | Content::Denied => vec![],
     }
 }
 
@@ -73,20 +79,21 @@ fn reference(c: &ResCase) -> (Vec<String>, Outcome_) {
     if c.tz == "localtime" {
         log.push("/etc/localtime".to_string());
         return match c.vfs.get("/etc/localtime") {
+            Some(Content::Denied) | None => (log, Outcome_::IoErr),
             Some(x) => (log, file_outcome(x)),
-            None => (log, Outcome_::IoErr),
         };
     }
     // file lookup: absolute path as is; relative under each directory in order, first readable wins
     let mut lookup = |name: &str, log: &mut Vec<String>| -> Option<Content> {
         if name.starts_with('/') {
             log.push(name.to_string());
-            c.vfs.get(name).cloned()
+            c.vfs.get(name).filter(|x| !matches!(x, Content::Denied)).cloned()
         } else {
             for d in &c.dirs {
                 let p = format!("{d}/{name}");
                 log.push(p.clone());
-                if let Some(x) = c.vfs.get(&p) {
+                // an unreadable file does not win: the next directory is tried
+                if let Some(x) = c.vfs.get(&p).filter(|x| !matches!(x, Content::Denied)) {
                     return Some(x.clone());
                 }
             }
@@ -124,7 +131,18 @@ pub fn check_res(c: &ResCase, st: &mut Stats) -> Result<(), String> {
         let mut m = v.borrow_mut();
         m.clear();
         for (p, content) in &c.vfs {
-            m.insert(p.clone(), bytes_of(content));
+            if !matches!(content, Content::Denied) {
+                m.insert(p.clone(), bytes_of(content));
+            }
+        }
+    });
+    DENIED.with(|d| {
+        let mut d = d.borrow_mut();
+        d.clear();
+        for (p, content) in &c.vfs {
+            if matches!(content, Content::Denied) {
+                d.insert(p.clone());
+            }
         }
     });
     LOG.with(|l| l.borrow_mut().clear());
@@ -163,6 +181,9 @@ pub fn check_res(c: &ResCase, st: &mut Stats) -> Result<(), String> {
     let existing = exp_log.iter().filter(|p| c.vfs.contains_key(*p)).count();
     let both_viable = tzstr::parse(tzstr::trim_ascii_ws(c.tz.as_bytes()), false).is_ok() && c.vfs.keys().any(|k| k.ends_with(&format!("/{}", c.tz)));
     let shadow = c.vfs.values().any(|v| !matches!(v, Content::Zone(_)));
+    if c.vfs.values().any(|v| matches!(v, Content::Denied)) && existing > 0 {
+        st.class("unreadable_file_on_a_candidate_path");
+    }
     if candidates >= 2 || both_viable || (shadow && existing > 0) || c.tz.starts_with(':') || c.tz != c.tz.trim() {
         st.nontrivial(c);
     }
@@ -190,7 +211,18 @@ fn check_local(c: &ResCase, st: &mut Stats) -> Result<(), String> {
         let mut m = v.borrow_mut();
         m.clear();
         for (p, content) in &c.vfs {
-            m.insert(p.clone(), bytes_of(content));
+            if !matches!(content, Content::Denied) {
+                m.insert(p.clone(), bytes_of(content));
+            }
+        }
+    });
+    DENIED.with(|d| {
+        let mut d = d.borrow_mut();
+        d.clear();
+        for (p, content) in &c.vfs {
+            if matches!(content, Content::Denied) {
+                d.insert(p.clone());
+            }
         }
     });
     LOG.with(|l| l.borrow_mut().clear());
@@ -204,7 +236,7 @@ fn check_local(c: &ResCase, st: &mut Stats) -> Result<(), String> {
     match (c.vfs.get("/etc/localtime"), &got) {
         (Some(Content::Zone(off)), Ok(z)) if *z == TimeZone::from_tz_data(&zone_file(*off)).unwrap() => Ok(()),
         (Some(Content::Garbage | Content::Empty), Err(Error::Tz(TzError::TzFile(_)))) => Ok(()),
-        (None, Err(Error::Io(_))) => Ok(()),
+        (None | Some(Content::Denied), Err(Error::Io(_))) => Ok(()),
         (e, g) => Err(format!("parse_local(): /etc/localtime = {e:?}, got {:?}", g.as_ref().map(|_| "Ok").map_err(|e| format!("{e:?}")))),
     }
 }
@@ -218,7 +250,7 @@ pub fn replay(kind: &str, case: &Value) -> Result<(), String> {
     }
 }
 
-const NAMES: [&str; 14] = ["UTC0", "EST5EDT,M3.2.0,M11.1.0", "Europe/Paris", "EST5", "localtime", "AAA0BBB", "posix/UTC", "x", "UTC", "<+03>-3", "Etc/GMT+5", "..//a", "AAA0BBB,J1,J2", "é"];
+const NAMES: [&str; 18] = ["EST5EDT,M3.2.0/-0:30,M11.1.0", "EST5EDT,M3.2.0/+2,M11.1.0", "EST5EDT,M3.2.0/25,M11.1.0", "Zone/../Zone/A", "UTC0", "EST5EDT,M3.2.0,M11.1.0", "Europe/Paris", "EST5", "localtime", "AAA0BBB", "posix/UTC", "x", "UTC", "<+03>-3", "Etc/GMT+5", "..//a", "AAA0BBB,J1,J2", "é"];
 
 pub fn arb_case() -> SBoxedStrategy<ResCase> {
     let name = proptest::sample::select(NAMES.to_vec());
@@ -231,7 +263,7 @@ pub fn arb_case() -> SBoxedStrategy<ResCase> {
         1 => (name.clone(), pad).prop_map(|(n, p)| format!("{p}:{n}")),
     ];
     let dirs = proptest::collection::vec(proptest::sample::select(vec!["/usr/share/zoneinfo", "/share/zoneinfo", "/etc/zoneinfo", "/d1", "/d2", "", "rel"]), 0..4).prop_map(|v| v.into_iter().map(|s| s.to_string()).collect::<Vec<String>>());
-    let content = prop_oneof![4 => (1i32..1000).prop_map(|k| Content::Zone(k * 60)), 2 => Just(Content::Garbage), 1 => Just(Content::Empty)];
+    let content = prop_oneof![4 => (1i32..1000).prop_map(|k| Content::Zone(k * 60)), 2 => Just(Content::Garbage), 1 => Just(Content::Empty), 2 => Just(Content::Denied)];
     (tz, dirs, proptest::collection::vec((any::<u32>(), content, 0u8..6), 0..6))
         .prop_map(|(tz, dirs, files)| {
             // populate preferentially on the candidate paths of this TZ value
